@@ -189,6 +189,10 @@ def gen_value(r, kind=None):
   elif kind == 'KRefList':
     if x < 0.15:
       return None
+    if x < 0.35:
+      # the same target more than once: adjacent, non-adjacent, all equal (the engine stores a RefList as given)
+      a, b = r.sample([1, 2, 3, 4, 5], 2)
+      return r.choice([[a, a], [a, a, a], [a, b, a], [a, a, b], [b, a, a], [a, b, b, a], [a, b, a, b, a]])
     if x < 0.75:
       return [r.choice(INTS[:9]) if r.random() < 0.9 else r.choice(INTS) for _ in range(r.choice([0, 1, 1, 2, 2, 3, 4]))]
   y = r.random()
